@@ -24,6 +24,9 @@ impl Engine for BpEngine {
                 let maxwrite: Option<usize> = opt("maxwrite").and_then(|v| v.parse().ok());
                 let release_all = opt("release") == Some("all");
                 let eintr: Option<usize> = opt("eintr").and_then(|v| v.parse().ok());
+                // srvclose=1: an extra idle channel is opened; the server closes it in the very moment the
+                // stall ends (its CloseOk is appended while the backlog is flushed)
+                let srvclose = opt("srvclose").is_some();
                 let p = |s: &str| s.parse::<usize>().ok();
                 let (bound, high, low, threads, nmsg, msgsize, stall) = match (p(bound), p(high), p(low), p(threads), p(nmsg), p(msgsize), p(stall)) {
                     (Some(a), Some(b), Some(c), Some(d), Some(e), Some(f), Some(g)) => (a, b, c, d, e, f, g),
@@ -55,7 +58,7 @@ impl Engine for BpEngine {
                 let opener = std::thread::spawn(move || {
                     let mut conn = conn;
                     let mut chans = Vec::new();
-                    for i in 0..threads {
+                    for i in 0..(threads + if srvclose { 1 } else { 0 }) {
                         match conn.open_channel(Some((i + 1) as u16)) {
                             Ok(c) => chans.push(c),
                             Err(e) => return Err(format!("open-channel err {}", err_token(&e))),
@@ -78,6 +81,8 @@ impl Engine for BpEngine {
                         return out.push(e);
                     }
                 };
+                let mut chans = chans;
+                let idle_chan = if srvclose { chans.pop() } else { None };
                 // everything so far is on the wire; now the transport stalls
                 std::thread::sleep(Duration::from_millis(30));
                 peer.set_budget(Some(0));
@@ -141,6 +146,10 @@ impl Engine for BpEngine {
                 let t1 = Instant::now();
                 if let Some(k) = eintr {
                     peer.hiccup_write_after(k, std::io::ErrorKind::Interrupted);
+                }
+                if let Some(ic) = idle_chan.as_ref() {
+                    use amq_protocol::protocol::{channel, AMQPClass};
+                    peer.push(&broker::method(ic.channel_id(), AMQPClass::Channel(channel::AMQPMethod::Close(channel::Close { reply_code: 404, reply_text: "NOT_FOUND".into(), class_id: 0, method_id: 0 }))));
                 }
                 if release_all {
                     peer.set_budget(None);
@@ -239,6 +248,19 @@ impl Engine for BpEngine {
                     }
                 }
                 out.push(format!("wire ok={} {}", if ok { "t" } else { "f" }, detail));
+                if let Some(ic) = idle_chan {
+                    // the client's CloseOk for the channel the server closed must reach the wire
+                    let id = ic.channel_id();
+                    let t3 = Instant::now();
+                    let mut seen_ok = false;
+                    while t3.elapsed() < Duration::from_secs(3) && !seen_ok {
+                        let (_h, frames, _r) = split_written(&peer.written());
+                        seen_ok = frames.iter().any(|(ft, ch, p)| *ft == 1 && *ch == id && p.len() >= 4 && p[..4] == [0, 20, 0, 41]);
+                        std::thread::sleep(Duration::from_millis(20));
+                    }
+                    out.push(format!("idle-close-ok {}", if seen_ok { "t" } else { "f" }));
+                    std::mem::forget(ic);
+                }
                 // weaker, for runs in which the connection is expected to die: what did reach the wire is a
                 // clean prefix - whole frames (the last one possibly cut short), every channel's messages
                 // 0, 1, 2, ... without gap or repetition, each intact
